@@ -201,6 +201,11 @@ def tiered_ranges(numtype, intsize, signed, start, end, shift_step,
         if endexcl:
             end -= 1
 
+    if start > end:
+        # An empty range, e.g. an exclusive bound at the edge of the type
+        # (start would not even be representable)
+        return ()
+
     if not shift_step:
         return ((start, end, 0),)
 
